@@ -21,7 +21,7 @@ var c12Forms = []struct{ name, sql string }{
 	{"first", "FIRST(arr)"}, {"last", "LAST(arr)"}, {"elementat", "ELEMENTAT(ARRAY(n1, s1), 1)"}, {"unwind", "UNWIND(ARRAY(arr, ARRAY(n1)))"}, {"changetype", "CHANGETYPE(n1, 'string')"}, {"changetype.int", "CHANGETYPE('12', 'integer')"},
 	{"upper", "TO_UPPER(s1)"}, {"hash", "HASH(s1, 'sha1')"}, {"encode", "ENCODE(n1, 'hex')"}, {"decode", "DECODE(ENCODE(s1, 'base64'), 'base64')"}, {"daterange", "DATERANGE('2020-01-01', s1)"}, {"constant", "CONSTANT('c1')"},
 	{"getvar", "GETVAR('k')"}, {"getvar.unset", "GETVAR('never')"}, {"subquery", "(SELECT e, f FROM arr WHERE e > 1)"}, {"subquery.root", "(SELECT un1 FROM `<-u1`)"}, {"subquery.agg", "(SELECT COUNT(*) AS n, SUM(e) AS s FROM arr)"},
-	{"exists", "EXISTS (SELECT e FROM arr WHERE e > 1)"}, {"fn.user", "VFAIL(n1)"}, {"fn.user.arith", "(VFAIL(n1) + 1)"}, {"fn.once", "ONCE.VBG(7)"}, {"fn.scoped", "SCOPED.VBG(s1)"}, {"defaultkey", "DEFAULTKEY(obj)"},
+	{"exists", "EXISTS (SELECT e FROM arr WHERE e > 1)"}, {"tuple", "('a', 'b', n1, 2)"}, {"tuple.nested", "ARRAY(('x', s1), (n1, (n2 + 1)))"}, {"subquery.dual-star", "(SELECT * FROM dual)"}, {"fn.user", "VFAIL(n1)"}, {"fn.user.arith", "(VFAIL(n1) + 1)"}, {"fn.once", "ONCE.VBG(7)"}, {"fn.scoped", "SCOPED.VBG(s1)"}, {"defaultkey", "DEFAULTKEY(obj)"},
 }
 
 var c12Positions = []struct {
@@ -49,7 +49,7 @@ var c12Positions = []struct {
 }
 
 func init() {
-	floor := []string{"item.async", "item.async-union", "item.async-cte", "item.async-multidim", "item.once-multidim", "item.async-derived", "item.fuse", "item.fuse-alias", "item.setvar", "rich", "parjoin"}
+	floor := []string{"item.async", "item.async-union", "item.async-cte", "item.async-multidim", "item.once-multidim", "item.async-derived", "item.cte-dual-star", "item.fuse-dual-star", "item.fuse", "item.fuse-alias", "item.setvar", "rich", "parjoin"}
 	for _, f := range c12Forms {
 		floor = append(floor, "form."+f.name)
 	}
@@ -188,12 +188,16 @@ func c12Matrix(c *fw.Case) {
 		d = newRichDoc(c)
 	}
 	nf, np := len(c12Forms), len(c12Positions)
-	cell := c.Idx % (nf*np + 20)
+	cell := c.Idx % (nf*np + 24)
 	if cell >= nf*np {
 		// special select items
 		var sql string
 		var feat string
-		switch (cell - nf*np) % 10 {
+		switch (cell - nf*np) % 12 {
+		case 10:
+			sql, feat = "WITH c AS (SELECT rid FROM t1) SELECT * FROM dual", "item.cte-dual-star"
+		case 11:
+			sql, feat = "SELECT rid, FUSE((SELECT * FROM dual)) FROM t1", "item.fuse-dual-star"
 		case 8:
 			sql, feat = "SELECT q.v, q.rid FROM (SELECT rid, ASYNC.VBG(n1) AS v FROM t1) q", "item.async-derived"
 		case 9:
